@@ -1,6 +1,9 @@
 /-
-C19 — the image cache of `weasyprint/images.py::get_image_from_uri` (key `f'{url} {orientation}'`), together with the
-part of `RasterImage.__init__` / `cache_image_data` that writes into the same cache.  Hand-written mirror.
+C19 — the image cache of `weasyprint/images.py::get_image_from_uri` (key
+`f'{url} {orientation} {options["optimize_images"]} {options["jpeg_quality"]} {options["dpi"]}'` since bca20a5: every
+option the stored image depends on is part of the key), together with the part of `RasterImage.__init__` /
+`cache_image_data` that writes into the same cache.  Hand-written mirror.  A `RasterImage` constructor that raises is an
+`ImageLoadingError` (d7dc388): in the model the constructor is total, the Pillow failure is a blob without `raster`.
 
 Abstractions (what the third-party code decides is a parameter, carried by the fetched blob):
   * the fetcher is a function `url ↦ Fetched` (deterministic by construction): raises / returns a dict without
@@ -42,8 +45,24 @@ def Orientation.render : Orientation → String
   | .angle .q270 false => "(270, False)"
   | .angle .q270 true => "(270, True)"
 
-/-- `key = f'{url} {orientation}'`. -/
-def keyStr (url : String) (o : Orientation) : String := url ++ " " ++ o.render
+/-- The options `RasterImage` reads (`optimize_images` a bool, `jpeg_quality` / `dpi` `None` or an int ≥ 0). -/
+structure Opts where
+  optimize : Bool
+  jpegQuality : Option Nat
+  dpi : Option Nat
+  deriving Repr, DecidableEq, BEq, Inhabited
+
+/-- `str(True)` / `str(False)` inside an f-string. -/
+def pyBool (b : Bool) : String := if b then "True" else "False"
+
+/-- `str(None)` / `str(n)` inside an f-string. -/
+def pyOptNat : Option Nat → String
+  | none => "None"
+  | some n => toString n
+
+/-- `key = f'{url} {orientation} {options["optimize_images"]} {options["jpeg_quality"]} {options["dpi"]}'`. -/
+def keyStr (url : String) (o : Orientation) (opts : Opts) : String :=
+  url ++ " " ++ o.render ++ " " ++ pyBool opts.optimize ++ " " ++ pyOptNat opts.jpegQuality ++ " " ++ pyOptNat opts.dpi
 
 /-- `pillow_image.format`. -/
 inductive Fmt where
@@ -71,13 +90,6 @@ inductive Fetched where
   deriving Repr, DecidableEq, BEq, Inhabited
 
 abbrev Fetcher := String → Fetched
-
-/-- The options `RasterImage` reads. -/
-structure Opts where
-  optimize : Bool
-  jpegQuality : Option Nat
-  dpi : Option Nat
-  deriving Repr, DecidableEq, BEq, Inhabited
 
 inductive OutFmt where
   | jpeg | png
@@ -193,11 +205,11 @@ structure Result where
   deriving Repr, Inhabited
 
 /-- `get_image_from_uri(cache, url_fetcher, options, url, forced_mime_type, context, orientation)`.
-A hit returns `cache[key]` whatever it is (also bytes written by `LazyImage`; image keys end in `e` or `)`, data keys
-in `-` or a digit, so an image key never names a bytes entry: `C19.dataKey_ne_keyStr`).
+A hit returns `cache[key]` whatever it is (also bytes written by `LazyImage`; image keys contain a space after the
+last `-`, data keys do not, so an image key never names a bytes entry: `C19.dataKey_ne_keyStr`).
 `KeyError` has no constructor in `PyErr`: it is `.indexError` with a site starting with `KeyError`. -/
 def getImage (f : Fetcher) (opts : Opts) (c : Cache) (url forced : String) (o : Orientation) : Result :=
-  let key := keyStr url o
+  let key := keyStr url o opts
   match lookup c key with
   | some e => ⟨.ok e, c, []⟩
   | none =>
@@ -208,21 +220,27 @@ def getImage (f : Fetcher) (opts : Opts) (c : Cache) (url forced : String) (o : 
       let r := decode opts c url key forced mime fileName blob o
       ⟨.ok (.image r.1), insert r.2 key (.image r.1), [url]⟩
 
+/-- One request: the image options are those of the render that makes it (a cache may be shared by renders with
+different options). -/
 structure Call where
   url : String
   forced : String
   orientation : Orientation
+  opts : Opts
   deriving Repr, DecidableEq, Inhabited
 
 /-- A history of calls sharing one cache. -/
-def runCalls (f : Fetcher) (opts : Opts) : Cache → List Call → List Result
+def runCalls (f : Fetcher) : Cache → List Call → List Result
   | _, [] => []
   | c, call :: rest =>
-    let r := getImage f opts c call.url call.forced call.orientation
-    r :: runCalls f opts r.cache rest
+    let r := getImage f call.opts c call.url call.forced call.orientation
+    r :: runCalls f r.cache rest
+
+/-- The result of a call on an empty cache. -/
+def coldResult (f : Fetcher) (call : Call) : Result :=
+  getImage f call.opts [] call.url call.forced call.orientation
 
 /-- The value a call returns on an empty cache. -/
-def cold (f : Fetcher) (opts : Opts) (call : Call) : Except PyErr Entry :=
-  (getImage f opts [] call.url call.forced call.orientation).value
+def cold (f : Fetcher) (call : Call) : Except PyErr Entry := (coldResult f call).value
 
 end Wp.ImageCache
